@@ -391,9 +391,8 @@ func (c ProtoMapCodec) Append(data []byte, ptr unsafe.Pointer, tag []byte) []byt
 }
 
 func (c ProtoMapCodec) Read(data []byte, ptr unsafe.Pointer, wt plenccore.WireType) (n int, err error) {
-	if len(data) == 0 {
-		return 0, nil
-	}
+	// data is a single map entry. It is empty when both the key and the value
+	// are zero: that is still an entry
 
 	// ptr is a pointer to a map pointer
 	if *(*unsafe.Pointer)(ptr) == nil {
